@@ -1,0 +1,47 @@
+//go:build verif
+
+package redis
+
+import (
+	"github.com/gotid/god/lib/breaker"
+	"github.com/gotid/god/lib/syncx"
+)
+
+// VerifResetClients closes every go-redis client the package has cached (node and cluster managers) and starts
+// with empty managers (build tag verif).  The verification drivers call it when a case is finished: the wrapper
+// otherwise keeps one client with 8 idle connections per address for the life of the process, and a driver
+// process that visits thousands of addresses runs out of file descriptors.
+func VerifResetClients() {
+	_ = clientManager.Close()
+	_ = clusterManager.Close()
+	clientManager = syncx.NewResourceManager()
+	clusterManager = syncx.NewResourceManager()
+}
+
+type verifPassBreaker struct{ name string }
+
+type verifPassPromise struct{}
+
+func (verifPassPromise) Accept()       {}
+func (verifPassPromise) Reject(string) {}
+
+func (b verifPassBreaker) Name() string                    { return b.name }
+func (b verifPassBreaker) Allow() (breaker.Promise, error) { return verifPassPromise{}, nil }
+func (b verifPassBreaker) Do(req func() error) error       { return req() }
+func (b verifPassBreaker) DoWithAcceptable(req func() error, _ breaker.Acceptable) error {
+	return req()
+}
+func (b verifPassBreaker) DoWithFallback(req func() error, _ func(err error) error) error {
+	return req()
+}
+func (b verifPassBreaker) DoWithFallbackAcceptable(req func() error, _ func(err error) error, _ breaker.Acceptable) error {
+	return req()
+}
+
+// VerifNeverReject replaces r's breaker by one that lets every request through (build tag verif).  Differential
+// histories contain server errors (WRONGTYPE, ...) and expired contexts, which the real breaker counts as failures:
+// it would eventually reject calls at random and desynchronise the twin servers.  The breaker clauses are checked
+// on their own streams with the real breaker.
+func VerifNeverReject(r *Redis) {
+	r.brk = verifPassBreaker{name: r.Addr}
+}
